@@ -172,7 +172,13 @@ def run(a, prop, sections, oracle, what, compare_results=("TX", "EB", "INIT", "B
             samples.append({"history": h["header"][:3] + [o[0][:200] for o in h["ops"][:12]],
                             "first_observation": (h["ops"][0][1].result if h["ops"] and h["ops"][0][1] else None)})
         # (b) the property on the implementation's own observations
-        bad = oracle(h) if oracle else None
+        try:
+            bad = oracle(h) if oracle else None
+        except Exception:           # an observation the oracle cannot read is a broken check, never a silent pass or a crash
+            import traceback
+            v.broken_obligation("the %s oracle could not interpret the implementation's observations of history %s" % (prop, h["id"]),
+                                traceback.format_exc()[-1500:])
+            bad = None
         if bad is not None:
             idx, msg, sig = bad
             flagged += 1
